@@ -962,10 +962,11 @@ class VConnection(BaseNetQASMConnection):
     """The real SDK connection; every message goes as BYTES through the real
     deserialiser into the real controller and executor."""
 
-    def __init__(self, app_name="alice", ctrl: Optional[VController] = None, nv=False, node_ids=None, **kwargs):
-        SharedMemoryManager.reset_memories()
-        BaseNetQASMConnection._app_ids.clear()
-        BaseNetQASMConnection._app_names.clear()
+    def __init__(self, app_name="alice", ctrl: Optional[VController] = None, nv=False, node_ids=None, successor=False, **kwargs):
+        if not (successor and ctrl is not None):       # (a successor: the next connection on the same controller, same process)
+            SharedMemoryManager.reset_memories()
+            BaseNetQASMConnection._app_ids.clear()
+            BaseNetQASMConnection._app_names.clear()
         DebugConnection.node_ids = dict(node_ids) if node_ids else {"verif": 0, "bob": 1, "charlie": 2, "alice": 0}
         self.ctrl = ctrl or VController(name="verif", flavour=NVFlavour() if nv else VanillaFlavour())
         self.ex: VExecutor = self.ctrl._executor  # type: ignore
